@@ -8,6 +8,7 @@
 import TdfProofs.Lemmas.Dec
 import TdfProofs.Lemmas.Entry
 import TdfProofs.Lemmas.Data2D
+import TdfProofs.Lemmas.Compact
 namespace Tdf.C12
 
 /-- NI for every decoder program: if `c` decodes to `a` with care mask `m`, every `c'` that agrees
@@ -109,6 +110,30 @@ theorem events (x : Events) (h : x.valid = true) :
       (Events.dec x.fmt).run (c' ++ rest') = some (x, rest') := by
   obtain ⟨m, hm, hs⟩ := scramble _ x.enc x (Events.dec_enc x h)
   exact ⟨m, hm, fun c' r hc ha => (hs c' r hc ha).2⟩
+
+/-- WHOLE FILES: for the header and jump table of any well-formed file there is a mask such that every
+    file whose first 64 + 288·N bytes agree with it on the flagged positions — whatever its reserved
+    header words, reserved entry words and comment tails hold, and whatever data follows — opens
+    with the same header fields and the same table (types, formats, offsets, sizes, dates, comments) -/
+theorem file_table (l : Lay) (ok : l.Ok) :
+    ∃ (h : Header) (m : List Bool), m.length = (l.hdr ++ l.table.flatMap Entry.enc).length ∧
+      ∀ c' data', c'.length = (l.hdr ++ l.table.flatMap Entry.enc).length →
+        D.AgreeOn m (l.hdr ++ l.table.flatMap Entry.enc) c' →
+        decTable.run (c' ++ data') = some ((h, l.table), data') := by
+  obtain ⟨h, _, hp0, _⟩ := decTable_prefix l ok []
+  have rt : ∀ rest, decTable.run ((l.hdr ++ l.table.flatMap Entry.enc) ++ rest) = some ((h, l.table), rest) := by
+    intro rest
+    obtain ⟨h', _, hp', hr⟩ := decTable_prefix l ok rest
+    obtain ⟨h'', _, hp'', _⟩ := decTable_prefix l ok []
+    have e1 : h' = h'' := by
+      have a := hp' []; have b := hp'' []
+      rw [a] at b; simpa using b
+    have e2 : h = h'' := by
+      have a := hp0 []; have b := hp'' []
+      rw [a] at b; simpa using b
+    rw [e2, ← e1]; exact hr
+  obtain ⟨m, hm, hs⟩ := scramble decTable _ (h, l.table) rt
+  exact ⟨h, m, hm, fun c' d hc ha => (hs c' d hc ha).2⟩
 
 /-- the masks are not trivially "all care": text fields really ignore what follows the first NUL,
     and skipped words really are skipped -/
